@@ -35,7 +35,10 @@ def sample_models(case, mir, schema, n, seed):
         for (ty, t) in c.args:
             b.value(ty.lstrip("&").strip(), t)
     for nme in getattr(case, "extra_syms", ()):
-        h.real(nme)
+        if nme in getattr(case, "int_syms", ()):
+            h.int(nme)
+        else:
+            h.real(nme)
     S = dict(h.syms)
     assumptions = case.assume(S) if case.assume else []
     s = z3.Solver()
